@@ -11,6 +11,7 @@ MODULES = {
     'basis_function': ('src/basis_function/mod.rs', 'src/basis_function/kani_harness.rs', 'basis_function_harness.rs'),
     'statistics': ('src/statistics/mod.rs', 'src/statistics/kani_harness.rs', 'statistics_harness.rs'),
     'levmar': ('src/solvers/levmar/mod.rs', 'src/solvers/levmar/kani_harness.rs', 'levmar_harness.rs'),
+    'util': ('src/util/mod.rs', 'src/util/kani_harness.rs', 'nalgebra_harness.rs'),
 }
 # harness -> (module, kind, bound/explanation)
 HARNESSES = {}
@@ -22,6 +23,21 @@ HARNESSES['to_vector_colmajor_3x2'] = ('levmar', 'bounded', '3 x 2 matrix, symbo
 HARNESSES['copy_matrix_to_column_2x3'] = ('levmar', 'bounded', '2 x 3 source (three right-hand sides) into a 6 x 2 target, symbolic entries and position, unwind 8')
 HARNESSES['concat_colwise_2x2_2x1'] = ('statistics', 'bounded', '2 x 2 and 2 x 1 operands, symbolic entries, unwind 6')
 HARNESSES['extract_range_1_3_of_4'] = ('statistics', 'bounded', 'range [1,3) of a 4-vector, symbolic entries, unwind 6')
+
+# bounded validation of contracts the prelude ASSUMES of nalgebra (never counted as proved)
+NALGEBRA = {
+    'na_transpose_2x3': 'transpose: 2 x 3, symbolic u8 entries and position',
+    'na_column_view_3x2': 'column(j) and column-major from_column_slice: 3 x 2',
+    'na_columns_rows_block_3x4': 'columns(1,2) and rows(1,2) of a 3 x 4 matrix',
+    'na_from_vec_as_slice_4': 'DVector::from_vec / as_slice: 4 elements',
+    'na_reshape_generic_2x3_to_6x1': 'reshape_generic keeps the column-major data: 2 x 3 -> 6 x 1',
+    'na_column_mut_copy_from_3x2': 'column_mut(j).copy_from: 3 x 2',
+    'na_component_mul_assign_3': 'component_mul_assign: 3 elements, entries < 8',
+    'na_mul_trmul_add_2x2': 'Mul / tr_mul / Add: 2 x 2, entries < 4',
+    'na_diagonal_from_element_2x2': 'diagonal / from_element / zeros',
+}
+for _n, _b in NALGEBRA.items():
+    HARNESSES[_n] = ('util', 'bounded', _b)
 
 # bounded stand-ins for functions the extractor could not bring through (lost anchor): function id -> harnesses
 FALLBACK = {
